@@ -353,9 +353,10 @@ func (d *Driver) FamReaders(perType, G, iters int) {
 				}(g)
 			}
 			wg.Wait()
-			// one event per distinct outcome per goroutine keeps the trace small
+			// one event per distinct outcome, whichever goroutines saw it (the first of them is named): a frozen message has one outcome,
+			// so the trace holds one pair of events per message - not one per goroutine (100 MB per shard with 64 goroutines)
+			seen := map[string]bool{}
 			for g := 0; g < G; g++ {
-				seen := map[string]bool{}
 				for _, r := range results[g] {
 					k := fmt.Sprint(r.size, r.st, string(r.out))
 					if seen[k] {
